@@ -165,6 +165,23 @@ func icptOp(c *Ctx, op string) {
 		okHandlerUnary := connect.NewUnaryHandler("/s/m", func(context.Context, *connect.Request[emptypb.Empty]) (*connect.Response[emptypb.Empty], error) {
 			return connect.NewResponse(&emptypb.Empty{}), nil
 		})
+		// generated constructors apply one and the same option values once per procedure: a first
+		// application (for some other procedure) must not change what the next one builds
+		if side == "client" {
+			var first []connect.ClientOption
+			for _, o := range opts {
+				first = append(first, o.(connect.ClientOption))
+			}
+			_ = connect.NewClient[emptypb.Empty, emptypb.Empty](&inprocClient{h: okHandlerUnary}, "http://h/s/other", first...)
+		} else {
+			var first []connect.HandlerOption
+			for _, o := range opts {
+				first = append(first, o.(connect.HandlerOption))
+			}
+			_ = connect.NewUnaryHandler("/s/other", func(context.Context, *connect.Request[emptypb.Empty]) (*connect.Response[emptypb.Empty], error) {
+				return connect.NewResponse(&emptypb.Empty{}), nil
+			}, first...)
+		}
 		switch side + "/" + kind {
 		case "client/unary":
 			var copts []connect.ClientOption
